@@ -192,6 +192,19 @@ func Param(name string, def int) int {
 	return def
 }
 
+// TempDir returns a fresh directory for this case (removed when the case ends); under the engine it is a name in
+// the file-system model.
+func TempDir(name string) string {
+	d, err := os.MkdirTemp("", "zzverif-"+name+"-")
+	if err != nil {
+		panic(err)
+	}
+	tempDirs = append(tempDirs, d)
+	return d
+}
+
+var tempDirs []string
+
 // Symbolic reports whether the harness runs under the engine.
 func Symbolic() bool { return false }
 
@@ -224,6 +237,10 @@ func RunCase(c *Case, f func(), limit time.Duration) (o *Outcome) {
 		o.Timeout = true
 	}
 	runtime.ReadMemStats(&ms1)
+	for _, d := range tempDirs {
+		_ = os.RemoveAll(d)
+	}
+	tempDirs = nil
 	o.AllocBytes = ms1.TotalAlloc - ms0.TotalAlloc
 	o.Seconds = time.Since(t0).Seconds()
 	return o
